@@ -102,4 +102,1029 @@ theorem alookup_filter_keys (p : Str → Bool) (j : Str) (m : List (Str × Bool)
       · subst hj; simp [hp']
       · simp [hj]
 
+/-! ## flow control -/
+
+/-- the schema can be given a limiter (no nil dereference) -/
+def safe (s : Schema) : Prop := (newFlowControl s).isSome = true
+
+/-- a wrapper stored under name `n` is either untouched (`NewFlowControlCache`, only possible when it was synced with
+    the zero schema) or its limiter is exactly what `NewFlowControl` builds from its stored schema -/
+def WOK (n : Str) (w : Wrapper) : Prop :=
+  (w.fc = none ∧ w.localConfig = Schema.zero) ∨
+  (w.localConfig.name = n ∧ ∃ v, w.fc = some v ∧ newFlowControl w.localConfig = some v)
+
+theorem nfc_zero : newFlowControl Schema.zero = some ⟨[], .exempt, 0, 0⟩ := by decide
+
+theorem nfc_shape {s : Schema} {v : FCView} (h : newFlowControl s = some v) :
+    v.name = s.name ∧ v.typ = guessType s ∧ (v.typ = .maxInflight → v.b = 0) ∧ (v.typ = .exempt → v.a = 0 ∧ v.b = 0) := by
+  unfold newFlowControl at h
+  split at h
+  · rename_i hg
+    split at h
+    · injection h with h; subst h; simp [hg]
+    · cases h
+  · rename_i hg
+    split at h
+    · injection h with h; subst h; simp [hg]
+    · cases h
+  · rename_i hg
+    injection h with h; subst h; simp [hg]
+
+theorem WOK_fresh (n : Str) : WOK n Wrapper.fresh := Or.inl ⟨rfl, rfl⟩
+
+theorem WOK_safe {n : Str} {w : Wrapper} (h : WOK n w) : safe w.localConfig := by
+  cases h with
+  | inl h => rw [h.2]; unfold safe; rw [nfc_zero]; rfl
+  | inr h => obtain ⟨_, v, _, hv⟩ := h; unfold safe; rw [hv]; rfl
+
+/-- `localWrapper.Sync`: whatever path it takes (unchanged / create / type change / resize in place), the wrapper ends
+    up holding the schema and the limiter `NewFlowControl` would build for it; it only runs without panic on a
+    schema that has the member its guessed type needs -/
+theorem localSync_spec {n : Str} {w w' : Wrapper} {s : Schema} (hw : WOK n w) (hn : s.name = n)
+    (h : localSync w s = some w') : w'.localConfig = s ∧ WOK n w' ∧ safe s := by
+  unfold localSync at h
+  by_cases he : s = w.localConfig
+  · simp only [he, if_true] at h
+    injection h with h; subst h
+    exact ⟨he.symm, hw, he ▸ WOK_safe hw⟩
+  · simp only [he, if_false] at h
+    have mk : ∀ v, newFlowControl s = some v → (⟨s, some v⟩ : Wrapper).localConfig = s ∧ WOK n ⟨s, some v⟩ ∧ safe s := by
+      intro v hv
+      refine ⟨rfl, Or.inr ⟨hn, v, rfl, hv⟩, ?_⟩
+      unfold safe; rw [hv]; rfl
+    cases hfc : w.fc with
+    | none =>
+      simp only [hfc] at h
+      cases hs : newFlowControl s with
+      | none => simp [hs] at h
+      | some v =>
+        simp only [hs, Option.map] at h
+        injection h with h; subst h
+        exact mk v hs
+    | some v =>
+      simp only [hfc] at h
+      by_cases ht : v.typ ≠ guessType s
+      · rw [if_pos ht] at h
+        cases hs : newFlowControl s with
+        | none => simp [hs] at h
+        | some v' =>
+          simp only [hs, Option.map] at h
+          injection h with h; subst h
+          exact mk v' hs
+      · have ht' : v.typ = guessType s := by simpa using ht
+        rw [if_neg ht] at h
+        -- the limiter in force was built from the stored schema
+        have hold : w.localConfig.name = n ∧ newFlowControl w.localConfig = some v := by
+          cases hw with
+          | inl hz => rw [hfc] at hz; cases hz.1
+          | inr hr =>
+            obtain ⟨hname, v0, hv0, hnf⟩ := hr
+            rw [hfc] at hv0; injection hv0 with hv0; subst hv0
+            exact ⟨hname, hnf⟩
+        obtain ⟨hvn, _, hvb, hve⟩ := nfc_shape hold.2
+        cases hg : guessType s with
+        | maxInflight =>
+          simp only [hg] at h
+          cases hm : s.maxInflight with
+          | none => simp [hm] at h
+          | some m =>
+            simp only [hm] at h
+            injection h with h; subst h
+            apply mk
+            unfold newFlowControl
+            simp only [hg, hm]
+            have hb : v.b = 0 := hvb (by rw [ht', hg])
+            have : v.typ = .maxInflight := by rw [ht', hg]
+            cases v
+            simp_all
+        | tokenBucket =>
+          simp only [hg] at h
+          cases hm : s.tokenBucket with
+          | none => simp [hm] at h
+          | some t =>
+            simp only [hm] at h
+            injection h with h; subst h
+            apply mk
+            unfold newFlowControl
+            simp only [hg, hm]
+            have : v.typ = .tokenBucket := by rw [ht', hg]
+            cases v
+            simp_all
+        | exempt =>
+          simp only [hg] at h
+          injection h with h; subst h
+          apply mk
+          unfold newFlowControl
+          simp only [hg]
+          have ht2 : v.typ = .exempt := by rw [ht', hg]
+          have := hve ht2
+          cases v
+          simp_all
+
+/-- progress: on a schema that has the member its type needs, `localWrapper.Sync` does not panic -/
+theorem localSync_progress {n : Str} {w : Wrapper} {s : Schema} (hw : WOK n w) (hs : safe s) :
+    ∃ w', localSync w s = some w' := by
+  unfold localSync
+  by_cases he : s = w.localConfig
+  · simp [he]
+  · simp only [he, if_false]
+    unfold safe at hs
+    obtain ⟨v0, hv0⟩ := Option.isSome_iff_exists.1 hs
+    cases hfc : w.fc with
+    | none => simp [hv0]
+    | some v =>
+      simp only
+      by_cases ht : v.typ ≠ guessType s
+      · rw [if_pos ht]; simp [hv0]
+      · rw [if_neg ht]
+        unfold newFlowControl at hv0
+        cases hg : guessType s with
+        | maxInflight =>
+          simp only [hg] at hv0 ⊢
+          cases hm : s.maxInflight with
+          | none => simp [hm] at hv0
+          | some m => simp
+        | tokenBucket =>
+          simp only [hg] at hv0 ⊢
+          cases hm : s.tokenBucket with
+          | none => simp [hm] at hv0
+          | some m => simp
+        | exempt => simp
+
+theorem lastSchema_name {l : List Schema} {n : Str} {s : Schema} (h : lastSchema l n = some s) : s.name = n := by
+  induction l with
+  | nil => cases h
+  | cons x r ih =>
+    unfold lastSchema at h
+    cases hr : lastSchema r n with
+    | some y => simp only [hr] at h; injection h with h; subst h; exact ih hr
+    | none =>
+      simp only [hr] at h
+      by_cases hx : x.name = n
+      · simp only [hx, if_true] at h; injection h with h; subst h; exact hx
+      · simp [hx] at h
+
+theorem lastSchema_mem {l : List Schema} {n : Str} {s : Schema} (h : lastSchema l n = some s) : s ∈ l := by
+  induction l with
+  | nil => cases h
+  | cons x r ih =>
+    unfold lastSchema at h
+    cases hr : lastSchema r n with
+    | some y => simp only [hr] at h; injection h with h; subst h; exact List.mem_cons_of_mem _ (ih hr)
+    | none =>
+      simp only [hr] at h
+      by_cases hx : x.name = n
+      · simp only [hx, if_true] at h; injection h with h; subst h; exact List.mem_cons_self
+      · simp [hx] at h
+
+theorem lastSchema_none_iff (l : List Schema) (n : Str) : lastSchema l n = none ↔ n ∉ schemaNames l := by
+  induction l with
+  | nil => simp [lastSchema, schemaNames]
+  | cons x r ih =>
+    unfold lastSchema
+    cases hr : lastSchema r n with
+    | some y =>
+      have : n ∈ schemaNames r := by
+        apply Classical.byContradiction; intro hc
+        rw [ih.2 hc] at hr; cases hr
+      simp only [schemaNames, List.map_cons, List.mem_cons] at this ⊢
+      simp [this]
+    | none =>
+      have hnr : n ∉ schemaNames r := ih.1 hr
+      simp only [schemaNames, List.map_cons, List.mem_cons] at hnr ⊢
+      by_cases hx : x.name = n
+      · simp [hx]
+      · simp only [hx, if_false, true_iff, not_or]
+        exact ⟨fun e => hx e.symm, hnr⟩
+
+/-- all wrappers of a map are consistent -/
+def MapOK (m : List (Str × Wrapper)) : Prop := ∀ n w, alookup n m = some w → WOK n w
+
+/-- the loop of `syncLocalFlowControls` -/
+theorem fcLoop_spec (new : List Schema) : ∀ (m m' : List (Str × Wrapper)), MapOK m → fcLoop new m = some m' →
+    (∀ s ∈ new, safe s) ∧ MapOK m' ∧
+    ∀ n, (lastSchema new n = none → alookup n m' = alookup n m) ∧
+         (∀ s, lastSchema new n = some s → ∃ w, alookup n m' = some w ∧ w.localConfig = s) := by
+  induction new with
+  | nil =>
+    intro m m' hm h
+    simp only [fcLoop] at h; injection h with h; subst h
+    refine ⟨by simp, hm, fun n => ⟨fun _ => rfl, fun s hs => by simp [lastSchema] at hs⟩⟩
+  | cons s r ih =>
+    intro m m' hm h
+    unfold fcLoop at h
+    simp only at h
+    have hw : WOK s.name ((alookup s.name m).getD Wrapper.fresh) := by
+      cases hl : alookup s.name m with
+      | none => exact WOK_fresh _
+      | some w => exact hm _ _ hl
+    cases hls : localSync ((alookup s.name m).getD Wrapper.fresh) s with
+    | none => simp [hls] at h
+    | some w' =>
+      simp only [hls] at h
+      obtain ⟨hcfg, hok', hsafe⟩ := localSync_spec hw rfl hls
+      have hm1 : MapOK (astore s.name w' m) := by
+        intro n w hl
+        rw [alookup_astore] at hl
+        by_cases hn : s.name = n
+        · simp only [hn, if_true] at hl; injection hl with hl; subst hl; exact hn ▸ hok'
+        · simp only [hn, if_false] at hl; exact hm _ _ hl
+      obtain ⟨hs1, hm2, hl2⟩ := ih _ _ hm1 h
+      refine ⟨?_, hm2, ?_⟩
+      · intro x hx
+        cases hx with
+        | head => exact hsafe
+        | tail _ hx => exact hs1 x hx
+      · intro n
+        obtain ⟨hnone, hsome⟩ := hl2 n
+        unfold lastSchema
+        cases hr : lastSchema r n with
+        | some y =>
+          refine ⟨fun hc => by simp at hc, fun x hx => ?_⟩
+          simp only at hx; injection hx with hx; subst hx
+          exact hsome _ hr
+        | none =>
+          simp only
+          have h1 := hnone hr
+          rw [alookup_astore] at h1
+          by_cases hn : s.name = n
+          · simp only [hn, if_true] at h1 ⊢
+            refine ⟨fun hc => by simp at hc, fun x hx => ?_⟩
+            injection hx with hx; subst hx
+            exact ⟨w', h1, hcfg⟩
+          · simp only [hn, if_false] at h1 ⊢
+            exact ⟨fun _ => h1, fun x hx => by simp at hx⟩
+
+/-- progress of the loop on safe schemas -/
+theorem fcLoop_progress (new : List Schema) : ∀ (m : List (Str × Wrapper)), MapOK m → (∀ s ∈ new, safe s) →
+    ∃ m', fcLoop new m = some m' := by
+  induction new with
+  | nil => intro m _ _; exact ⟨m, rfl⟩
+  | cons s r ih =>
+    intro m hm hs
+    unfold fcLoop
+    simp only
+    have hw : WOK s.name ((alookup s.name m).getD Wrapper.fresh) := by
+      cases hl : alookup s.name m with
+      | none => exact WOK_fresh _
+      | some w => exact hm _ _ hl
+    obtain ⟨w', hw'⟩ := localSync_progress hw (hs s List.mem_cons_self)
+    simp only [hw']
+    obtain ⟨_, hok', _⟩ := localSync_spec hw rfl hw'
+    apply ih
+    · intro n w hl
+      rw [alookup_astore] at hl
+      by_cases hn : s.name = n
+      · simp only [hn, if_true] at hl; injection hl with hl; subst hl; exact hn ▸ hok'
+      · simp only [hn, if_false] at hl; exact hm _ _ hl
+    · intro x hx; exact hs x (List.mem_cons_of_mem _ hx)
+
+theorem alookup_fcDelete (old new : List Str) : ∀ (m : List (Str × Wrapper)) (n : Str),
+    alookup n (fcDelete old new m) = if n ∈ old ∧ n ∉ new then none else alookup n m := by
+  induction old with
+  | nil => intro m n; simp [fcDelete]
+  | cons o r ih =>
+    intro m n
+    unfold fcDelete
+    by_cases hb : memb o new = true
+    · rw [if_pos hb, ih]
+      have ho : o ∈ new := (memb_iff _ _).1 hb
+      by_cases hn : n ∈ r ∧ n ∉ new
+      · have : n ∈ o :: r ∧ n ∉ new := ⟨List.mem_cons_of_mem _ hn.1, hn.2⟩
+        rw [if_pos hn, if_pos this]
+      · have : ¬ (n ∈ o :: r ∧ n ∉ new) := by
+          intro hc
+          cases hc.1 with
+          | head => exact hc.2 ho
+          | tail _ h => exact hn ⟨h, hc.2⟩
+        rw [if_neg hn, if_neg this]
+    · have ho : o ∉ new := fun h => hb ((memb_iff _ _).2 h)
+      rw [if_neg hb, ih, alookup_aerase]
+      by_cases hn : n ∈ r ∧ n ∉ new
+      · have : n ∈ o :: r ∧ n ∉ new := ⟨List.mem_cons_of_mem _ hn.1, hn.2⟩
+        rw [if_pos hn, if_pos this]
+      · rw [if_neg hn]
+        by_cases hon : o = n
+        · subst hon
+          have : o ∈ o :: r ∧ o ∉ new := ⟨List.mem_cons_self, ho⟩
+          rw [if_pos rfl, if_pos this]
+        · have : ¬ (n ∈ o :: r ∧ n ∉ new) := by
+            intro hc
+            cases hc.1 with
+            | head => exact hon rfl
+            | tail _ h => exact hn ⟨h, hc.2⟩
+          rw [if_neg hon, if_neg this]
+
+/-- the flow-control part of the invariant: the stored spec only has schemas that can be given a limiter, and the
+    map holds, for every name, exactly the wrapper of the last schema of that name -/
+def FRel (spec : List Schema) (fcs : List (Str × Wrapper)) : Prop :=
+  (∀ s ∈ spec, safe s) ∧ MapOK fcs ∧
+  ∀ n, (lastSchema spec n = none → alookup n fcs = none) ∧
+       (∀ s, lastSchema spec n = some s → ∃ w, alookup n fcs = some w ∧ w.localConfig = s)
+
+def FInv (c : CI) : Prop := FRel (c.fcSpec.getD []) c.fcs
+
+theorem syncLocalFlowControls_spec {c c' : CI} {new : List Schema} (hc : FInv c)
+    (h : syncLocalFlowControls c new = some c') :
+    FInv c' ∧ c'.fcSpec.getD [] = new ∧
+    c' = { c with fcSpec := c'.fcSpec, fcs := c'.fcs } := by
+  unfold syncLocalFlowControls at h
+  simp only at h
+  by_cases he : c.fcSpec.getD [] = new
+  · simp only [he, if_true] at h; injection h with h; subst h
+    exact ⟨hc, he, rfl⟩
+  · simp only [he, if_false] at h
+    cases hl : fcLoop new c.fcs with
+    | none => simp [hl] at h
+    | some m =>
+      simp only [hl] at h; injection h with h; subst h
+      obtain ⟨hsafe, hmap, hlook⟩ := hc
+      obtain ⟨hs', hm', hl'⟩ := fcLoop_spec new _ _ hmap hl
+      refine ⟨⟨?_, ?_, ?_⟩, rfl, rfl⟩
+      · simpa using hs'
+      · intro n w hw
+        simp only [alookup_fcDelete] at hw
+        by_cases hd : n ∈ schemaNames (c.fcSpec.getD []) ∧ n ∉ schemaNames new
+        · simp [hd] at hw
+        · simp only [hd, if_false] at hw; exact hm' _ _ hw
+      · intro n
+        simp only [Option.getD_some, alookup_fcDelete]
+        constructor
+        · intro hn
+          have hnn : n ∉ schemaNames new := (lastSchema_none_iff _ _).1 hn
+          by_cases ho : n ∈ schemaNames (c.fcSpec.getD [])
+          · simp [ho, hnn]
+          · have : ¬ (n ∈ schemaNames (c.fcSpec.getD []) ∧ n ∉ schemaNames new) := fun x => ho x.1
+            simp only [this, if_false]
+            rw [(hl' n).1 hn]
+            exact (hlook n).1 ((lastSchema_none_iff _ _).2 ho)
+        · intro s hs
+          have hnn : n ∈ schemaNames new := by
+            apply Classical.byContradiction; intro hc'
+            rw [(lastSchema_none_iff _ _).2 hc'] at hs; cases hs
+          have : ¬ (n ∈ schemaNames (c.fcSpec.getD []) ∧ n ∉ schemaNames new) := fun x => x.2 hnn
+          simp only [this, if_false]
+          exact (hl' n).2 s hs
+
+theorem syncLocalFlowControls_safe {c c' : CI} {new : List Schema} (hc : FInv c)
+    (h : syncLocalFlowControls c new = some c') : ∀ s ∈ new, safe s := by
+  obtain ⟨h1, h2, _⟩ := syncLocalFlowControls_spec hc h
+  rw [← h2]; exact h1.1
+
+theorem syncLocalFlowControls_progress {c : CI} {new : List Schema} (hc : FInv c) (hs : ∀ s ∈ new, safe s) :
+    ∃ c', syncLocalFlowControls c new = some c' := by
+  unfold syncLocalFlowControls
+  simp only
+  by_cases he : c.fcSpec.getD [] = new
+  · simp [he]
+  · simp only [he, if_false]
+    obtain ⟨m, hm⟩ := fcLoop_progress new c.fcs hc.2.1 hs
+    simp [hm]
+
+/-! ## secure serving -/
+
+/-- the derived material of a stored secure-serving configuration is what the parsers make of the stored data
+    (the two are always written together), and the stored data was accepted by the parsers -/
+def SOK (env : Env) (cfg : SSCfg) : Prop :=
+  cfg.clientCA = expCA env cfg.secureServing.clientCAData ∧
+  cfg.verifyOptions = expCA env cfg.secureServing.clientCAData ∧
+  cfg.certs = expCerts env cfg.secureServing.certData cfg.secureServing.keyData ∧
+  (cfg.secureServing.clientCAData.length ≠ 0 → (env.parseCA cfg.secureServing.clientCAData).isSome = true) ∧
+  (cfg.secureServing.keyData.length ≠ 0 → cfg.secureServing.certData.length ≠ 0 →
+      (env.parsePair cfg.secureServing.certData cfg.secureServing.keyData).isSome = true)
+
+def SInv (env : Env) (c : CI) : Prop := SOK env (loadSS c).1
+
+theorem SOK_empty (env : Env) : SOK env ⟨SecureServing.empty, none, none, none⟩ := by
+  simp [SOK, expCA, expCerts, SecureServing.empty]
+
+theorem length_zero_iff (l : Str) : l.length = 0 ↔ l = [] := List.length_eq_zero_iff
+
+theorem ssClientCA_spec {env : Env} {old : SSCfg} {new : SecureServing} {ca vo : Option Str}
+    (h1 : old.clientCA = expCA env old.secureServing.clientCAData)
+    (h2 : old.verifyOptions = expCA env old.secureServing.clientCAData)
+    (h4 : old.secureServing.clientCAData.length ≠ 0 → (env.parseCA old.secureServing.clientCAData).isSome = true)
+    (h : ssClientCA env old new = .ok (ca, vo)) :
+    ca = expCA env new.clientCAData ∧ vo = expCA env new.clientCAData ∧
+    (new.clientCAData.length ≠ 0 → (env.parseCA new.clientCAData).isSome = true) := by
+  unfold ssClientCA at h
+  by_cases hca : old.secureServing.clientCAData ≠ new.clientCAData
+  · rw [if_pos hca] at h
+    by_cases hz : new.clientCAData.length = 0
+    · rw [if_pos hz] at h
+      injection h with h; injection h with ha hb; subst ha; subst hb
+      refine ⟨by unfold expCA; rw [if_pos hz], by unfold expCA; rw [if_pos hz], fun x => absurd hz x⟩
+    · rw [if_neg hz] at h
+      cases hp : env.parseCA new.clientCAData with
+      | none => rw [hp] at h; cases h
+      | some id =>
+        rw [hp] at h
+        injection h with h; injection h with ha hb; subst ha; subst hb
+        refine ⟨by unfold expCA; rw [if_neg hz, hp], by unfold expCA; rw [if_neg hz, hp], fun _ => rfl⟩
+  · rw [if_neg hca] at h
+    have hca' : old.secureServing.clientCAData = new.clientCAData := by
+      apply Classical.byContradiction; intro x; exact hca x
+    injection h with h; injection h with ha hb; subst ha; subst hb
+    rw [← hca']; exact ⟨h1, h2, h4⟩
+
+theorem ssCerts_spec {env : Env} {old : SSCfg} {new : SecureServing} {certs : Option Str}
+    (h3 : old.certs = expCerts env old.secureServing.certData old.secureServing.keyData)
+    (h5 : old.secureServing.keyData.length ≠ 0 → old.secureServing.certData.length ≠ 0 →
+      (env.parsePair old.secureServing.certData old.secureServing.keyData).isSome = true)
+    (h : ssCerts env old new = .ok certs) :
+    certs = expCerts env new.certData new.keyData ∧
+    (new.keyData.length ≠ 0 → new.certData.length ≠ 0 → (env.parsePair new.certData new.keyData).isSome = true) := by
+  unfold ssCerts at h
+  by_cases hk : old.secureServing.keyData ≠ new.keyData ∨ old.secureServing.certData ≠ new.certData
+  · rw [if_pos hk] at h
+    by_cases hkz : new.keyData.length = 0 ∨ new.certData.length = 0
+    · rw [if_pos hkz] at h
+      injection h with h; subst h
+      refine ⟨by unfold expCerts; rw [if_pos hkz], ?_⟩
+      intro a b; cases hkz with
+      | inl x => exact absurd x a
+      | inr x => exact absurd x b
+    · rw [if_neg hkz] at h
+      cases hp : env.parsePair new.certData new.keyData with
+      | none => rw [hp] at h; cases h
+      | some id =>
+        rw [hp] at h
+        injection h with h; subst h
+        refine ⟨by unfold expCerts; rw [if_neg hkz, hp], fun _ _ => rfl⟩
+  · rw [if_neg hk] at h
+    have hk' : old.secureServing.keyData = new.keyData ∧ old.secureServing.certData = new.certData := by
+      constructor
+      · apply Classical.byContradiction; intro x; exact hk (Or.inl x)
+      · apply Classical.byContradiction; intro x; exact hk (Or.inr x)
+    injection h with h; subst h
+    rw [← hk'.1, ← hk'.2]; exact ⟨h3, h5⟩
+
+theorem syncSecureServing_spec {env : Env} {c c' : CI} {new : SecureServing} (hc : SInv env c)
+    (h : syncSecureServing env c new = .ok c') :
+    SInv env c' ∧ (loadSS c').1.secureServing = new ∧ (loadSS c').2 = true ∧
+    c' = { c with ss := c'.ss } := by
+  unfold syncSecureServing at h
+  obtain ⟨h1, h2, h3, h4, h5⟩ := hc
+  simp only at h
+  cases hA : ssClientCA env (loadSS c).1 new with
+  | error e => rw [hA] at h; cases h
+  | ok p =>
+    obtain ⟨ca, vo⟩ := p
+    rw [hA] at h
+    simp only at h
+    cases hB : ssCerts env (loadSS c).1 new with
+    | error e => rw [hB] at h; cases h
+    | ok certs =>
+      rw [hB] at h
+      simp only at h
+      injection h with h; subst h
+      obtain ⟨a1, a2, a3⟩ := ssClientCA_spec h1 h2 h4 hA
+      obtain ⟨b1, b2⟩ := ssCerts_spec h3 h5 hB
+      exact ⟨⟨a1, a2, b1, a3, b2⟩, rfl, rfl, rfl⟩
+
+/-- progress: when the parsers accept the new data, `syncSecureServingConfigLocked` succeeds -/
+theorem syncSecureServing_progress {env : Env} {c : CI} {new : SecureServing}
+    (hca : new.clientCAData.length ≠ 0 → (env.parseCA new.clientCAData).isSome = true)
+    (hkp : new.keyData.length ≠ 0 → new.certData.length ≠ 0 → (env.parsePair new.certData new.keyData).isSome = true) :
+    ∃ c', syncSecureServing env c new = .ok c' := by
+  have hA : ∃ p, ssClientCA env (loadSS c).1 new = .ok p := by
+    unfold ssClientCA
+    by_cases h1 : (loadSS c).1.secureServing.clientCAData ≠ new.clientCAData
+    · rw [if_pos h1]
+      by_cases hz : new.clientCAData.length = 0
+      · rw [if_pos hz]; exact ⟨_, rfl⟩
+      · rw [if_neg hz]
+        obtain ⟨cid, hcid⟩ := Option.isSome_iff_exists.1 (hca hz)
+        rw [hcid]; exact ⟨_, rfl⟩
+    · rw [if_neg h1]; exact ⟨_, rfl⟩
+  have hB : ∃ p, ssCerts env (loadSS c).1 new = .ok p := by
+    unfold ssCerts
+    by_cases hk : (loadSS c).1.secureServing.keyData ≠ new.keyData ∨ (loadSS c).1.secureServing.certData ≠ new.certData
+    · rw [if_pos hk]
+      by_cases hkz : new.keyData.length = 0 ∨ new.certData.length = 0
+      · rw [if_pos hkz]; exact ⟨_, rfl⟩
+      · rw [if_neg hkz]
+        have : (env.parsePair new.certData new.keyData).isSome = true :=
+          hkp (fun x => hkz (Or.inl x)) (fun x => hkz (Or.inr x))
+        obtain ⟨id, hid⟩ := Option.isSome_iff_exists.1 this
+        rw [hid]; exact ⟨_, rfl⟩
+    · rw [if_neg hk]; exact ⟨_, rfl⟩
+  obtain ⟨⟨ca, vo⟩, hA⟩ := hA
+  obtain ⟨certs, hB⟩ := hB
+  unfold syncSecureServing
+  simp only [hA, hB]
+  exact ⟨_, rfl⟩
+
+/-! ## endpoints -/
+
+def EpsOK (env : Env) (eps : List (Str × Bool)) : Prop := ∀ ep b, alookup ep eps = some b → env.addOK ep = true
+
+/-- every endpoint present could be given a transport; nothing is ever added when endpoints are not synced -/
+def EInv (env : Env) (c : CI) : Prop :=
+  EpsOK env c.eps ∧ (c.conn.skipSyncEndpoints = true → c.eps = [])
+
+theorem epLoop_spec (env : Env) (servers : List Server) : ∀ (l : List Str) (eps eps' : List (Str × Bool)) (err : Option Err),
+    EpsOK env eps → epLoop env servers l eps = (eps', err) →
+    EpsOK env eps' ∧
+    (err = none → (∀ j, alookup j eps' = if j ∈ l then some (isDisabled servers j) else alookup j eps) ∧
+                  ∀ ep ∈ l, env.addOK ep = true) := by
+  intro l
+  induction l with
+  | nil =>
+    intro eps eps' err hok h
+    simp only [epLoop] at h
+    injection h with h1 h2; subst h1; subst h2
+    exact ⟨hok, fun _ => ⟨fun j => by simp, fun ep hep => by cases hep⟩⟩
+  | cons ep r ih =>
+    intro eps eps' err hok h
+    unfold epLoop at h
+    have hstep : ∀ eps1, addOrUpdateEndpoint env eps ep (isDisabled servers ep) = .ok eps1 →
+        eps1 = astore ep (isDisabled servers ep) eps ∧ env.addOK ep = true := by
+      intro eps1 h1
+      unfold addOrUpdateEndpoint at h1
+      cases hl : alookup ep eps with
+      | some b =>
+        rw [hl] at h1; simp only at h1
+        injection h1 with h1
+        exact ⟨h1.symm, hok _ _ hl⟩
+      | none =>
+        rw [hl] at h1; simp only at h1
+        by_cases ha : env.addOK ep = true
+        · rw [if_pos ha] at h1; injection h1 with h1; exact ⟨h1.symm, ha⟩
+        · rw [if_neg ha] at h1; cases h1
+    cases hA : addOrUpdateEndpoint env eps ep (isDisabled servers ep) with
+    | error e =>
+      rw [hA] at h; simp only at h
+      injection h with h1 h2; subst h1; subst h2
+      exact ⟨hok, fun hc => by cases hc⟩
+    | ok eps1 =>
+      rw [hA] at h; simp only at h
+      obtain ⟨he1, hadd⟩ := hstep eps1 hA
+      have hok1 : EpsOK env eps1 := by
+        intro j b hj
+        rw [he1, alookup_astore] at hj
+        by_cases hej : ep = j
+        · subst hej; exact hadd
+        · rw [if_neg hej] at hj; exact hok _ _ hj
+      obtain ⟨hok', hrest⟩ := ih eps1 eps' err hok1 h
+      refine ⟨hok', fun hn => ?_⟩
+      obtain ⟨hl, ha⟩ := hrest hn
+      refine ⟨fun j => ?_, fun x hx => ?_⟩
+      · rw [hl j, he1, alookup_astore]
+        by_cases hjr : j ∈ r
+        · have : j ∈ ep :: r := List.mem_cons_of_mem _ hjr
+          rw [if_pos hjr, if_pos this]
+        · rw [if_neg hjr]
+          by_cases hej : ep = j
+          · subst hej
+            rw [if_pos rfl, if_pos List.mem_cons_self]
+          · have : j ∉ ep :: r := by
+              intro hc
+              cases hc with
+              | head => exact hej rfl
+              | tail _ h' => exact hjr h'
+            rw [if_neg hej, if_neg this]
+      · cases hx with
+        | head => exact hadd
+        | tail _ h' => exact ha x h'
+
+theorem epLoop_progress (env : Env) (servers : List Server) : ∀ (l : List Str) (eps : List (Str × Bool)),
+    (∀ ep ∈ l, env.addOK ep = true) → ∃ eps', epLoop env servers l eps = (eps', none) := by
+  intro l
+  induction l with
+  | nil => intro eps _; exact ⟨eps, rfl⟩
+  | cons ep r ih =>
+    intro eps ha
+    unfold epLoop
+    have : ∃ eps1, addOrUpdateEndpoint env eps ep (isDisabled servers ep) = .ok eps1 := by
+      unfold addOrUpdateEndpoint
+      cases hl : alookup ep eps with
+      | some b => exact ⟨_, rfl⟩
+      | none =>
+        simp only
+        rw [if_pos (ha ep List.mem_cons_self)]
+        exact ⟨_, rfl⟩
+    obtain ⟨eps1, h1⟩ := this
+    rw [h1]
+    exact ih eps1 (fun x hx => ha x (List.mem_cons_of_mem _ hx))
+
+/-- the endpoint map the server list prescribes -/
+def expEps (skip : Bool) (servers : List Server) (ep : Str) : Option Bool :=
+  if skip then none
+  else if memb ep (wantedEndpoints servers) then some (isDisabled servers ep) else none
+
+theorem syncEndpoints_spec {env : Env} {c c' : CI} {servers : List Server} {ord : List Str} {err : Option Err}
+    (hc : EInv env c) (h : syncEndpoints env c servers ord = (c', err)) :
+    EInv env c' ∧ c' = { c with eps := c'.eps } ∧
+    (err = none → (∀ j, alookup j c'.eps = expEps c.conn.skipSyncEndpoints servers j) ∧
+                  (c.conn.skipSyncEndpoints = false → ∀ s ∈ servers, env.addOK s.endpoint = true)) := by
+  unfold syncEndpoints at h
+  by_cases hs : c.conn.skipSyncEndpoints = true
+  · rw [if_pos hs] at h
+    injection h with h1 h2; subst h1; subst h2
+    refine ⟨hc, rfl, fun _ => ⟨fun j => ?_, fun hf => by rw [hs] at hf; cases hf⟩⟩
+    rw [hc.2 hs]; simp [expEps, hs, alookup]
+  · rw [if_neg hs] at h
+    have hs' : c.conn.skipSyncEndpoints = false := by simpa using hs
+    simp only at h
+    generalize hL : epLoop env servers (rangeOrder ord (wantedEndpoints servers))
+      (c.eps.filter fun e => memb e.1 (wantedEndpoints servers)) = res at h
+    obtain ⟨eps2, err2⟩ := res
+    simp only at h
+    injection h with h1 h2; subst h1; subst h2
+    have hok1 : EpsOK env (c.eps.filter fun e => memb e.1 (wantedEndpoints servers)) := by
+      intro j b hj
+      rw [alookup_filter_keys (fun k => memb k (wantedEndpoints servers))] at hj
+      by_cases hm : memb j (wantedEndpoints servers) = true
+      · rw [if_pos hm] at hj; exact hc.1 _ _ hj
+      · rw [if_neg hm] at hj; cases hj
+    obtain ⟨hok2, hrest⟩ := epLoop_spec env servers _ _ _ _ hok1 hL
+    refine ⟨⟨hok2, fun hx => by simp only at hx; rw [hs'] at hx; cases hx⟩, rfl, fun hn => ?_⟩
+    obtain ⟨hl, ha⟩ := hrest hn
+    refine ⟨fun j => ?_, fun _ s hsrv => ?_⟩
+    · simp only
+      rw [hl j, alookup_filter_keys (fun k => memb k (wantedEndpoints servers))]
+      unfold expEps
+      rw [hs']
+      simp only [Bool.false_eq_true, if_false]
+      by_cases hm : memb j (wantedEndpoints servers) = true
+      · have : j ∈ rangeOrder ord (wantedEndpoints servers) := (mem_rangeOrder _ _ _).2 ((memb_iff _ _).1 hm)
+        rw [if_pos this, if_pos hm]
+      · have : j ∉ rangeOrder ord (wantedEndpoints servers) := fun x => hm ((memb_iff _ _).2 ((mem_rangeOrder _ _ _).1 x))
+        rw [if_neg this, if_neg hm, if_neg hm]
+    · apply ha
+      apply (mem_rangeOrder _ _ _).2
+      unfold wantedEndpoints
+      exact List.mem_map_of_mem hsrv
+
+theorem syncEndpoints_progress {env : Env} {c : CI} {servers : List Server} {ord : List Str}
+    (ha : c.conn.skipSyncEndpoints = false → ∀ s ∈ servers, env.addOK s.endpoint = true) :
+    ∃ c', syncEndpoints env c servers ord = (c', none) := by
+  unfold syncEndpoints
+  by_cases hs : c.conn.skipSyncEndpoints = true
+  · rw [if_pos hs]; exact ⟨_, rfl⟩
+  · rw [if_neg hs]
+    have hs' : c.conn.skipSyncEndpoints = false := by simpa using hs
+    have : ∀ ep ∈ rangeOrder ord (wantedEndpoints servers), env.addOK ep = true := by
+      intro ep hep
+      have := (mem_rangeOrder _ _ _).1 hep
+      unfold wantedEndpoints at this
+      obtain ⟨s, hs1, hs2⟩ := List.mem_map.1 this
+      rw [← hs2]; exact ha hs' s hs1
+    obtain ⟨eps', he⟩ := epLoop_progress env servers _ (c.eps.filter fun e => memb e.1 (wantedEndpoints servers)) this
+    simp only [he]
+    exact ⟨_, rfl⟩
+
+/-! ## `ClusterInfo.Sync` -/
+
+/-- the invariant of a `ClusterInfo`: kept by every `Sync`, successful or failed half-way -/
+def Inv (env : Env) (c : CI) : Prop := FInv c ∧ SInv env c ∧ EInv env c
+
+theorem empty_inv (env : Env) (conn : Conn) (name : Str) : Inv env (empty env conn name) := by
+  refine ⟨⟨by simp [empty], ?_, ?_⟩, ?_, ?_, ?_⟩
+  · intro n w h; simp [empty, alookup] at h
+  · intro n; simp [empty, lastSchema, alookup]
+  · exact SOK_empty env
+  · intro ep b h; simp [empty, alookup] at h
+  · intro _; rfl
+
+theorem syncFeatureGate_spec {env : Env} {c c1 : CI} {o : Obj} (h : syncFeatureGate env c o.annotations = .ok c1) :
+    c1 = { c with gates := c1.gates } ∧ c1.gates = expGates env o ∧
+    ((gateAnnotation o.annotations).length ≠ 0 → (env.setGates (gateAnnotation o.annotations)).isSome = true) := by
+  unfold syncFeatureGate at h
+  simp only at h
+  by_cases hv : (gateAnnotation o.annotations).length = 0
+  · rw [if_pos hv] at h
+    by_cases hd : (!isDefault env c.gates) = true
+    · rw [if_pos hd] at h; injection h with h; subst h
+      exact ⟨rfl, by simp [expGates, hv], fun x => absurd hv x⟩
+    · rw [if_neg hd] at h; injection h with h; subst h
+      have : c.gates = env.defaultGates := by
+        simp only [isDefault, Bool.not_eq_true', decide_eq_false_iff_not, Classical.not_not] at hd
+        exact hd
+      exact ⟨rfl, by simp [expGates, hv, this], fun x => absurd hv x⟩
+  · rw [if_neg hv] at h
+    cases hs : env.setGates (gateAnnotation o.annotations) with
+    | none => rw [hs] at h; cases h
+    | some g =>
+      rw [hs] at h; injection h with h; subst h
+      exact ⟨rfl, by simp [expGates, hv, hs], fun _ => rfl⟩
+
+theorem syncFeatureGate_progress {env : Env} {c : CI} {o : Obj}
+    (h : (gateAnnotation o.annotations).length ≠ 0 → (env.setGates (gateAnnotation o.annotations)).isSome = true) :
+    ∃ c1, syncFeatureGate env c o.annotations = .ok c1 := by
+  unfold syncFeatureGate
+  simp only
+  by_cases hv : (gateAnnotation o.annotations).length = 0
+  · rw [if_pos hv]
+    by_cases hd : (!isDefault env c.gates) = true
+    · rw [if_pos hd]; exact ⟨_, rfl⟩
+    · rw [if_neg hd]; exact ⟨_, rfl⟩
+  · rw [if_neg hv]
+    obtain ⟨g, hg⟩ := Option.isSome_iff_exists.1 (h hv)
+    rw [hg]; exact ⟨_, rfl⟩
+
+theorem resetLimiter_spec (c : CI) (t : Str) :
+    resetLimiter c t = { c with limiterMode := t } := by
+  unfold resetLimiter
+  by_cases h : t ≠ c.limiterMode
+  · rw [if_pos h]
+  · rw [if_neg h]
+    have : t = c.limiterMode := by
+      apply Classical.byContradiction; intro x; exact h x
+    rw [this]
+
+theorem getFlowControlType_spec {env : Env} {conn : Conn} {o : Obj} {t : Str}
+    (h : getFlowControlType conn.globalRateLimiter (expGates env o) = some t) : t = expMode env conn o := by
+  unfold getFlowControlType at h
+  unfold expMode
+  by_cases hg : conn.globalRateLimiter = strRemote
+  · rw [if_pos hg] at h
+    cases hl : alookup strGlobalRateLimiter (expGates env o) with
+    | none => rw [hl] at h; cases h
+    | some b =>
+      rw [hl] at h
+      cases b with
+      | true => simp only at h; injection h with h; subst h; simp [hg]
+      | false => simp only at h; injection h with h; subst h; simp [hg]
+  · rw [if_neg hg] at h
+    injection h with h; subst h
+    simp [hg]
+
+/-- the successful path of `Sync`, stage by stage -/
+theorem sync_ok_cases {env : Env} {c c' : CI} {o : Obj} {ord : List Str} (h : sync env c o ord = .ok c') :
+    (c.cluster ≠ env.lower o.name ∧ c' = c) ∨
+    (c.cluster = env.lower o.name ∧ ∃ c1 t c3 c4 c5,
+      syncFeatureGate env c o.annotations = .ok c1 ∧
+      getFlowControlType c1.conn.globalRateLimiter c1.gates = some t ∧
+      syncLocalFlowControls (resetLimiter c1 t) o.schemas = some c3 ∧
+      syncEndpoints env c3 o.servers ord = (c4, none) ∧
+      syncSecureServing env c4 o.secureServing = .ok c5 ∧
+      c' = { c5 with policies := some o.policies, logging := some o.logging }) := by
+  unfold sync at h
+  by_cases hn : c.cluster ≠ env.lower o.name
+  · rw [if_pos hn] at h; injection h with h; exact Or.inl ⟨hn, h.symm⟩
+  · rw [if_neg hn] at h
+    have hn' : c.cluster = env.lower o.name := by
+      apply Classical.byContradiction; intro x; exact hn x
+    refine Or.inr ⟨hn', ?_⟩
+    cases h1 : syncFeatureGate env c o.annotations with
+    | error e => rw [h1] at h; cases h
+    | ok c1 =>
+      rw [h1] at h; simp only at h
+      cases h2 : getFlowControlType c1.conn.globalRateLimiter c1.gates with
+      | none => rw [h2] at h; cases h
+      | some t =>
+        rw [h2] at h; simp only at h
+        cases h3 : syncLocalFlowControls (resetLimiter c1 t) o.schemas with
+        | none => rw [h3] at h; cases h
+        | some c3 =>
+          rw [h3] at h; simp only at h
+          cases h4 : syncEndpoints env c3 o.servers ord with
+          | mk c4 err =>
+            rw [h4] at h
+            cases err with
+            | some e => simp only at h; cases h
+            | none =>
+              simp only at h
+              cases h5 : syncSecureServing env c4 o.secureServing with
+              | error e => rw [h5] at h; cases h
+              | ok c5 =>
+                rw [h5] at h; simp only at h
+                injection h with h
+                exact ⟨c1, t, c3, c4, c5, rfl, h2, h3, h4, h5, h.symm⟩
+
+/-- the failing paths of `Sync`: what state is left behind -/
+theorem sync_fail_cases {env : Env} {c c' : CI} {o : Obj} {ord : List Str} {e : Err} (h : sync env c o ord = .fail e c') :
+    c' = c ∨
+    (∃ c1 t c3, syncFeatureGate env c o.annotations = .ok c1 ∧
+      syncLocalFlowControls (resetLimiter c1 t) o.schemas = some c3 ∧
+      ((∃ err, syncEndpoints env c3 o.servers ord = (c', err))) ) := by
+  unfold sync at h
+  by_cases hn : c.cluster ≠ env.lower o.name
+  · rw [if_pos hn] at h; cases h
+  · rw [if_neg hn] at h
+    cases h1 : syncFeatureGate env c o.annotations with
+    | error e1 => rw [h1] at h; simp only at h; injection h with _ h; exact Or.inl h.symm
+    | ok c1 =>
+      rw [h1] at h; simp only at h
+      cases h2 : getFlowControlType c1.conn.globalRateLimiter c1.gates with
+      | none => rw [h2] at h; cases h
+      | some t =>
+        rw [h2] at h; simp only at h
+        cases h3 : syncLocalFlowControls (resetLimiter c1 t) o.schemas with
+        | none => rw [h3] at h; cases h
+        | some c3 =>
+          rw [h3] at h; simp only at h
+          refine Or.inr ⟨c1, t, c3, rfl, h3, ?_⟩
+          cases h4 : syncEndpoints env c3 o.servers ord with
+          | mk c4 err =>
+            rw [h4] at h
+            cases err with
+            | some e4 => simp only at h; injection h with _ h; subst h; exact ⟨_, rfl⟩
+            | none =>
+              simp only at h
+              cases h5 : syncSecureServing env c4 o.secureServing with
+              | error e5 => rw [h5] at h; simp only at h; injection h with _ h; subst h; exact ⟨_, rfl⟩
+              | ok c5 => rw [h5] at h; cases h
+
+theorem Obs.ext' {a b : Obs} (h1 : a.policies = b.policies) (h2 : a.logging = b.logging)
+    (h3 : a.endpoints = b.endpoints) (h4 : a.schemas = b.schemas) (h5 : a.hasSchema = b.hasSchema)
+    (h6 : a.limiterMode = b.limiterMode) (h7 : a.gates = b.gates) (h8 : a.tls = b.tls) (h9 : a.verify = b.verify)
+    (h10 : a.serverNames = b.serverNames) : a = b := by
+  cases a; cases b; simp_all
+
+/-- what a consistent flow-control map shows for a name is what the spec prescribes -/
+theorem getFlowSchema_of_FRel {c : CI} {spec : List Schema} {m : List (Str × Wrapper)} (hm : c.fcs = m)
+    (h : FRel spec m) (n : Str) :
+    getFlowSchema c n = (if n.length = 0 then some defaultFlowControl
+      else match lastSchema spec n with
+        | none => some defaultFlowControl
+        | some s => newFlowControl s) ∧
+    hasFlowSchema c n = (lastSchema spec n).isSome := by
+  subst hm
+  obtain ⟨_, hmap, hl⟩ := h
+  unfold getFlowSchema hasFlowSchema
+  cases hs : lastSchema spec n with
+  | none =>
+    rw [(hl n).1 hs]
+    by_cases hz : n.length = 0 <;> simp [hz]
+  | some s =>
+    obtain ⟨w, hw, hcfg⟩ := (hl n).2 s hs
+    rw [hw]
+    refine ⟨?_, rfl⟩
+    by_cases hz : n.length = 0
+    · simp [hz]
+    · simp only [hz, if_false]
+      have hname : s.name = n := lastSchema_name hs
+      cases hmap n w hw with
+      | inl hzero =>
+        -- an untouched wrapper only sits under the empty name
+        exfalso
+        rw [hcfg] at hzero
+        have : s.name = [] := by rw [hzero.2]; rfl
+        rw [hname] at this
+        exact hz (by rw [this]; rfl)
+      | inr hr =>
+        obtain ⟨_, v, hv, hnf⟩ := hr
+        rw [hv, ← hcfg, hnf]
+
+theorem sync_ok_spec {env : Env} {c c' : CI} {o : Obj} {ord : List Str} (hI : Inv env c)
+    (h : sync env c o ord = .ok c') (hn : c.cluster = env.lower o.name) :
+    Inv env c' ∧ c'.cluster = c.cluster ∧ c'.conn = c.conn ∧
+    observe env c' = expected env c.conn o ∧ applicable env c.conn o ∧ (∀ s ∈ o.schemas, safe s) ∧
+    (getFlowControlType c.conn.globalRateLimiter (expGates env o)).isSome = true := by
+  obtain ⟨hF, hS, hE⟩ := hI
+  cases sync_ok_cases h with
+  | inl hl => exact absurd hn hl.1
+  | inr hr =>
+    obtain ⟨_, c1, t, c3, c4, c5, h1, h2, h3, h4, h5, hc'⟩ := hr
+    obtain ⟨hc1, hg, hgapp⟩ := syncFeatureGate_spec h1
+    generalize c1.gates = g at hc1 hg
+    subst hc1
+    simp only at h2
+    rw [hg] at h2
+    have ht := getFlowControlType_spec (conn := c.conn) h2
+    rw [resetLimiter_spec] at h3
+    have hF2 : FInv { c with gates := g, limiterMode := t } := hF
+    obtain ⟨hF3, hspec3, hc3⟩ := syncLocalFlowControls_spec hF2 h3
+    have hsafe := syncLocalFlowControls_safe hF2 h3
+    generalize c3.fcSpec = sp at hc3 hspec3
+    generalize hm : c3.fcs = m at hc3
+    subst hc3
+    simp only at hm hF3
+    have hE3 : EInv env { c with gates := g, limiterMode := t, fcSpec := sp, fcs := m } := hE
+    obtain ⟨hE4, hc4, hep⟩ := syncEndpoints_spec hE3 h4
+    obtain ⟨hepl, hepa⟩ := hep rfl
+    generalize he : c4.eps = eps at hc4
+    subst hc4
+    simp only at he hepl hepa hE4
+    have hS4 : SInv env { c with gates := g, limiterMode := t, fcSpec := sp, fcs := m, eps := eps } := hS
+    obtain ⟨hS5, hss5, hld5, hc5⟩ := syncSecureServing_spec hS4 h5
+    generalize hssv : c5.ss = ssv at hc5
+    subst hc5
+    subst hc'
+    simp only at hssv
+    refine ⟨⟨hF3, hS5, hE4⟩, rfl, rfl, ?_, ?_, hsafe, ?_⟩
+    · -- the observation is the one the object prescribes
+      have hFR : FRel o.schemas m := by
+        have := hF3; unfold FInv at this; simp only at this; rw [hspec3] at this; exact this
+      apply Obs.ext'
+      · rfl
+      · rfl
+      · funext ep
+        simp only [observe, expected, loadEndpoint]
+        rw [hepl ep]; rfl
+      · funext n
+        simp only [observe, expected, expSchema]
+        exact (getFlowSchema_of_FRel rfl hFR n).1
+      · funext n
+        simp only [observe, expected]
+        exact (getFlowSchema_of_FRel rfl hFR n).2
+      · simp only [observe, expected]; exact ht
+      · simp only [observe, expected]; exact hg
+      · -- TLS
+        simp only [observe, expected, loadTLSConfig, expTLS]
+        obtain ⟨s1, s2, s3, _, _⟩ := hS5
+        cases hssv' : ssv with
+        | none => subst hssv'; simp [loadSS] at hld5
+        | some cfg =>
+          subst hssv'
+          simp only [loadSS] at hss5 s1 s3 ⊢
+          rw [s1, s3, hss5]
+      · simp only [observe, expected, loadVerifyOptions]
+        obtain ⟨_, s2, _, _, _⟩ := hS5
+        cases hssv' : ssv with
+        | none => subst hssv'; simp [loadSS] at hld5
+        | some cfg =>
+          subst hssv'
+          simp only [loadSS] at hss5 s2 ⊢
+          rw [s2, hss5]
+      · simp only [observe, expected, loadServerNames]
+        cases hssv' : ssv with
+        | none => subst hssv'; simp [loadSS] at hld5
+        | some cfg =>
+          subst hssv'
+          simp only [loadSS] at hss5 ⊢
+          rw [hss5, hn]
+    · -- the object can be applied from scratch
+      obtain ⟨_, _, _, s4, s5⟩ := hS5
+      rw [hss5] at s4 s5
+      exact ⟨hgapp, s4, s5, hepa⟩
+    · rw [h2]; rfl
+
+/-- a failed `Sync` (whatever sub-sync refused, however far the endpoint loop got) leaves a consistent `ClusterInfo`
+    whose secure-serving configuration (TLS material, server names) is untouched -/
+theorem sync_fail_spec {env : Env} {c c' : CI} {o : Obj} {ord : List Str} {e : Err} (hI : Inv env c)
+    (h : sync env c o ord = .fail e c') :
+    Inv env c' ∧ c'.cluster = c.cluster ∧ c'.conn = c.conn ∧ c'.ss = c.ss := by
+  obtain ⟨hF, hS, hE⟩ := hI
+  cases sync_fail_cases h with
+  | inl hl => subst hl; exact ⟨⟨hF, hS, hE⟩, rfl, rfl, rfl⟩
+  | inr hr =>
+    obtain ⟨c1, t, c3, h1, h3, err, h4⟩ := hr
+    obtain ⟨hc1, _, _⟩ := syncFeatureGate_spec h1
+    generalize c1.gates = g at hc1
+    subst hc1
+    rw [resetLimiter_spec] at h3
+    have hF2 : FInv { c with gates := g, limiterMode := t } := hF
+    obtain ⟨hF3, _, hc3⟩ := syncLocalFlowControls_spec hF2 h3
+    generalize c3.fcSpec = sp at hc3
+    generalize hm : c3.fcs = m at hc3
+    subst hc3
+    simp only at hm hF3
+    have hE3 : EInv env { c with gates := g, limiterMode := t, fcSpec := sp, fcs := m } := hE
+    obtain ⟨hE4, hc4, _⟩ := syncEndpoints_spec hE3 h4
+    generalize he : c'.eps = eps at hc4
+    subst hc4
+    exact ⟨⟨hF3, hS, hE4⟩, rfl, rfl, rfl⟩
+
+theorem FInv_of_eq {a b : CI} (h1 : b.fcSpec = a.fcSpec) (h2 : b.fcs = a.fcs) (h : FInv a) : FInv b := by
+  unfold FInv at *; rw [h1, h2]; exact h
+
+theorem EInv_of_eq {env : Env} {a b : CI} (h1 : b.eps = a.eps) (h2 : b.conn = a.conn) (h : EInv env a) : EInv env b := by
+  unfold EInv at *; rw [h1, h2]; exact h
+
+/-- progress of `Sync` on a consistent `ClusterInfo`: an object every external parser accepts, whose schemas can be
+    given limiters and whose endpoints can be given transports, is applied -/
+theorem sync_progress {env : Env} {c : CI} {o : Obj} (ord : List Str) (hI : Inv env c)
+    (hn : c.cluster = env.lower o.name) (ha : applicable env c.conn o) (hs : ∀ s ∈ o.schemas, safe s)
+    (hg : (getFlowControlType c.conn.globalRateLimiter (expGates env o)).isSome = true) :
+    ∃ c', sync env c o ord = .ok c' := by
+  obtain ⟨a1, a2, a3, a4⟩ := ha
+  obtain ⟨hF, hS, hE⟩ := hI
+  unfold sync
+  have hnn : ¬ c.cluster ≠ env.lower o.name := fun x => x hn
+  rw [if_neg hnn]
+  obtain ⟨c1, h1⟩ := syncFeatureGate_progress (c := c) a1
+  rw [h1]
+  obtain ⟨hc1, hg1, _⟩ := syncFeatureGate_spec h1
+  simp only
+  have hconn1 : c1.conn = c.conn := by rw [hc1]
+  rw [hconn1, hg1]
+  obtain ⟨t, ht⟩ := Option.isSome_iff_exists.1 hg
+  rw [ht]
+  simp only
+  have hF2 : FInv (resetLimiter c1 t) := by
+    rw [resetLimiter_spec]
+    exact FInv_of_eq (a := c) (by simp only; rw [hc1]) (by simp only; rw [hc1]) hF
+  obtain ⟨c3, h3⟩ := syncLocalFlowControls_progress hF2 hs
+  rw [h3]
+  simp only
+  obtain ⟨_, _, hc3⟩ := syncLocalFlowControls_spec hF2 h3
+  have hconn3 : c3.conn = c.conn := by rw [hc3, resetLimiter_spec]; simp only; exact hconn1
+  obtain ⟨c4, h4⟩ := syncEndpoints_progress (env := env) (c := c3) (servers := o.servers) (ord := ord)
+    (by rw [hconn3]; exact a4)
+  rw [h4]
+  simp only
+  obtain ⟨c5, h5⟩ := syncSecureServing_progress (env := env) (c := c4) a2 a3
+  rw [h5]
+  exact ⟨_, rfl⟩
+
+theorem fresh_progress {env : Env} {conn : Conn} {o : Obj} (ord : List Str) (ha : applicable env conn o)
+    (hs : ∀ s ∈ o.schemas, safe s)
+    (hg : (getFlowControlType conn.globalRateLimiter (expGates env o)).isSome = true) :
+    ∃ f, fresh env conn o ord = .ok f :=
+  sync_progress (c := empty env conn o.name) ord (empty_inv env conn o.name) rfl ha hs hg
+
 end KG.Lemmas.ClusterSync
